@@ -46,6 +46,8 @@ type (
 		blocked         int32
 		unblockPending  int32
 		unblockCh       chan unblockReason
+		blockMu         sync.Mutex // guards blocking and what is posted to unblockCh
+		blocking        bool       // a blocking command is in progress (from before it registers until it ends)
 		respVersion     int
 		noEvict         bool
 		multiInProgress bool
@@ -169,56 +171,62 @@ func (cs *clientState) releaseCapture() {
 	// drained here before fully releasing the capture. The other two
 	// channels exist only per command and will not be used again.
 
-	// move to CS_DRAINING to prevent a new cs.unblockCh item in the middle of draining
-	cs.setLock(CS_CAPTURED, CS_DRAINING)
+	// The unblock mailbox is not drained here any more: a request that arrives
+	// between two waits of the same blocking command has to end that command. It
+	// is emptied by beginBlocking/endBlocking, under blockMu.
+	cs.setLock(CS_CAPTURED, CS_UNCAPTURED)
+}
 
-	func() {
-		for {
-			select {
-			case <-cs.unblockCh:
-				// ignore and discard
-			default:
-				// empty - done
-				return
-			}
+// Marks the start of a blocking command, before the client registers in any
+// wait queue. From here on an unblock request is accepted and remembered until
+// the command looks at its mailbox, even if it is not waiting yet.
+func (cs *clientState) beginBlocking() {
+	cs.blockMu.Lock()
+	defer cs.blockMu.Unlock()
+
+	cs.blocking = true
+	cs.drainUnblockCh()
+}
+
+// Marks the end of a blocking command, however it ended. A request that was
+// not consumed is discarded so that it can't end a later block.
+func (cs *clientState) endBlocking() {
+	cs.blockMu.Lock()
+	defer cs.blockMu.Unlock()
+
+	cs.blocking = false
+	cs.drainUnblockCh()
+}
+
+func (cs *clientState) drainUnblockCh() {
+	for {
+		select {
+		case <-cs.unblockCh:
+			// ignore and discard
+		default:
+			// empty - done
+			return
 		}
-	}()
-
-	// drained - clear unblock state and release the capture
-	atomic.StoreInt32(&cs.unblockPending, 0)
-	cs.setLock(CS_DRAINING, CS_UNCAPTURED)
+	}
 }
 
 // Tells a blocking command (if any) to end with a timeout or error.
 // For a timeout, pass reason as an empty string and isError false.
-func (cs *clientState) unblock(reason string, isError bool) {
-	us := time.Microsecond
+// Returns false, and does nothing, if the client is not in a blocking command.
+func (cs *clientState) unblock(reason string, isError bool) (delivered bool) {
+	cs.blockMu.Lock()
+	defer cs.blockMu.Unlock()
 
-	for {
-		// N.B., checking is allowed in the midst of capture and release
-		locked := atomic.SwapInt32(&cs.blocked, CS_CHECKING)
-		if locked == CS_CAPTURED {
-			// client is probably in select waiting for the unblock
-			if atomic.CompareAndSwapInt32(&cs.unblockPending, 0, 1) {
-				// only one unblock is posted per capture to prevent
-				// getting stuck here
-				cs.unblockCh <- unblockReason{reason: reason, isError: isError}
-			}
-		}
-		atomic.SwapInt32(&cs.blocked, locked)
-
-		if locked == CS_UNCAPTURED || locked == CS_CAPTURED {
-			return
-		}
-
-		// CS_DRAINING, or CS_CHECKING from another goroutine, try again
-		if us < 4000*time.Microsecond {
-			us *= 2
-		} else {
-			us = time.Microsecond * time.Duration(rand.Intn(200))
-		}
-		time.Sleep(us)
+	if !cs.blocking {
+		return false
 	}
+
+	// one pending request is enough to end the command
+	select {
+	case cs.unblockCh <- unblockReason{reason: reason, isError: isError}:
+	default:
+	}
+	return true
 }
 
 func (cs *clientState) isBlocked() bool {
